@@ -353,6 +353,53 @@ func TestVerifC19Handler(t *testing.T) {
 			}
 		}
 
+		// L2 (images, end to end): the latest message is always retained, so each of its images is handed
+		// to the runner exactly once — also when the message has no text at all; when everything fits,
+		// every image of the request is; on templates that print every content, each sent image is tagged
+		// exactly once in the prompt.
+		if strings.HasPrefix(impl, "ok ") {
+			sent := map[int]int{}
+			for _, im := range got.Images {
+				if src, _, ok := e.identify(im.Data); ok {
+					sent[src]++
+				}
+			}
+			total, imageOnly := 0, 0
+			for _, m := range req {
+				total += len(m.imgs)
+				if m.content == "" && len(m.imgs) > 0 {
+					imageOnly++
+				}
+			}
+			if imageOnly > 0 {
+				out.Count("handler_request_has_image_only_message")
+			}
+			last := req[len(req)-1]
+			if len(last.imgs) > 0 {
+				out.Count("handler_latest_has_images")
+				if last.content == "" {
+					out.Count("handler_latest_is_image_only")
+				}
+			}
+			for _, im := range last.imgs {
+				if sent[im.src] != 1 {
+					out.L2("handler-latest-image-missing", line, fmt.Sprintf("image src=%d of the latest message (content %q, %d images) was handed to the runner %d times; %d images sent in all", im.src, last.content, len(last.imgs), sent[im.src], len(got.Images)))
+				}
+			}
+			if lim >= 1<<16 && len(got.Images) != total {
+				out.L2("handler-image-count", line, fmt.Sprintf("everything fits (num_ctx %d) but %d images were handed to the runner, the request has %d (%d image-only messages)", lim, len(got.Images), total, imageOnly))
+			}
+			if tc.style == c19StyleMessages || tc.style == c19StyleInPlace || tc.style == c19StyleTools {
+				literal := false
+				for _, m := range req {
+					literal = literal || strings.Contains(m.content, "[img-")
+				}
+				if tags := strings.Count(got.Prompt, "[img-"); !literal && tags != len(got.Images) {
+					out.L2("handler-image-tag", line, fmt.Sprintf("%d images handed to the runner but %d tags in the prompt", len(got.Images), tags))
+				}
+			}
+		}
+
 		// L2, end to end, on templates that render every role where it stands (style 3) or the
 		// system header + other roles (style 0): the request's latest message and the model's
 		// SYSTEM reach the runner.
@@ -361,7 +408,7 @@ func TestVerifC19Handler(t *testing.T) {
 		}
 		out.Count("handler_l2_evaluated")
 		last := req[len(req)-1]
-		if !strings.Contains(got.Prompt, fmt.Sprintf("m%dq", len(req)-1)) {
+		if last.content != "" && !strings.Contains(got.Prompt, fmt.Sprintf("m%dq", len(req)-1)) {
 			out.L2("handler-latest-missing", line, fmt.Sprintf("the request's latest message (role %s) is not in the prompt sent to the runner", last.role))
 		}
 		if sys != "" && req[0].role != "s" && !strings.Contains(got.Prompt, "y0q") {
@@ -493,6 +540,16 @@ func TestVerifC19Handler(t *testing.T) {
 				if r.Chance(1, 2) {
 					m.content += " [img]"
 				}
+				// IMAGE-ONLY message: no text at all (also as the latest turn)
+				if r.Chance(1, 3) {
+					m.content = ""
+				}
+			} else if r.Chance(1, 12) {
+				m.content = "" // empty turn without images
+			}
+			if withImages && j == nreq-1 && r.Chance(1, 4) {
+				m.content, m.imgs = "", []c19Img{{src: src, ok: true}} // image-only latest turn
+				src++
 			}
 			req = append(req, m)
 		}
